@@ -131,7 +131,9 @@ Definition has_dependants (e : engine) (k : N) : bool :=
 
 (* DeleteChannels, first pass: non-index unary channels are removed, index channels collected.
    [fixed = false] is the pinned upstream code: a key that is not a unary channel (so every virtual
-   channel) is skipped.  [fixed = true] removes virtual channels here, as DeleteChannel does. *)
+   channel) is skipped.  [fixed = true] (tree after fix F9) removes virtual channels here, as
+   DeleteChannel does. Throughout this file [fixed] selects between the pinned upstream tree and
+   /repo after the two fix: commits of this property (F9 here, F16 in create). *)
 Fixpoint ts_del_pass1 (fixed : bool) (e : engine) (keys : list N) (idxs : list N) : engine * list N :=
   match keys with
   | [] => (e, idxs)
@@ -403,6 +405,11 @@ Fixpoint normalise (host : N) (chs : list chan) : option (list chan) :=
       else (fun r' => (if negb (c_lkey c =? 0) then set_lkey c1 0 else c1) :: r') <$> normalise host r
   end.
 
+(* hasCalculatedIndex *)
+Definition has_auto_index (chs : list chan) (c : chan) : bool :=
+  existsb (fun p => name_eqb (c_name p) (c_name c +:+ calc_suffix) && c_isidx p && c_virt p && is_free p &&
+                    (c_lkey p =? 0)) chs.
+
 Definition nodup_N (l : list N) : list N := remove_dups l.
 Definition nle (a b : N) : Prop := (a <= b)%N.
 Global Instance nle_dec a b : Decision (nle a b) := decide (a <= b)%N.
@@ -440,7 +447,10 @@ Section create.
     match normalise host chs0 with
     | None => (s, (ECalcIndex, []))
     | Some chs1 =>
-        let chs := chs1 ++ (auto_index <$> filter (fun c => is_calc c && (c_lkey c =? 0)) chs1) in
+        (* [fixed]: a request forwarded by another node already carries the index (fix F16);
+           the pinned upstream code appended a second one *)
+        let chs := chs1 ++ (auto_index <$> filter (fun c => is_calc c && (c_lkey c =? 0) &&
+                                                            negb (fixed && has_auto_index chs1 c)) chs1) in
         let peers := peers_of host (c_lease <$> chs) in
         let '(s1, er1, out1) := create_peers s peers chs o [] in
         (* several peers and a failure: Go iterates a map, the set of peers served is arbitrary *)
